@@ -26,6 +26,7 @@ def main():
     r = sh(f"git -C {REPO} apply {d}/patch.diff")
     if r.returncode != 0:
         # hook commits made after the change was written may have moved its context: 3-way apply
+        sh(f"git -C {REPO} update-index -q --refresh")
         r = sh(f"git -C {REPO} apply --3way {d}/patch.diff")
         if r.returncode != 0:
             sh(f"git -C {REPO} reset -q --hard HEAD")
